@@ -72,6 +72,9 @@ FEATURE_SETS = {
     "none": ["--no-default-features"],
     "all": ["--features", "adhoccountmodels"],
 }
+# default features, but compiled with arithmetic-overflow checks and debug assertions (what `cargo test` and
+# debug builds use): overflows that only wrap in release builds panic here
+FEATURE_SETS["default-oc"] = []
 for _c, _cf in (("off", []), ("paths", ["adhoccounting"]), ("models", ["adhoccountmodels"])):
     for _v in (0, 1):
         for _f in (0, 1):
@@ -102,8 +105,9 @@ def build_harness(fset="default"):
             import shutil
             shutil.copy(lock_src, lock_dst)
         tdir = os.path.join(TARGET, "fs-" + fset)
+        flags = GUARD + (" -C overflow-checks=on -C debug-assertions=on" if fset.endswith("-oc") else "")
         rc, out, err = run(["cargo", "build", "--release", "--offline"] + FEATURE_SETS[fset], cwd=crate,
-                           env={"RUSTFLAGS": GUARD, "CARGO_TARGET_DIR": tdir}, timeout=3600)
+                           env={"RUSTFLAGS": flags, "CARGO_TARGET_DIR": tdir}, timeout=3600)
         if rc != 0:
             return False, err[-4000:]
         return True, ""
